@@ -261,6 +261,9 @@ def long_case(pl, res):
                 v("p0", f"p=0 but {nc} symbols changed")
             elif p == 1.0 and nc != ne:
                 v("p1", f"p=1 but only {nc} of {ne} eligible symbols changed")
+            elif 0 < p < 1 and pol.bypassed == 0 and pol.served < ne:
+                # fewer draws than eligible symbols: some symbols share their randomness (fates coupled instead of independent)
+                v("rate", f"{pol.served} draws for {ne} eligible symbols (requests: {pol.requests[:6]}{'...' if len(pol.requests) > 6 else ''})")
             elif 0 < p < 1 and pol.served >= n and abs(nc - p * ne) > 2 + 4e-3 * ne * (1 if ne < n else 0):
                 # every symbol owns one of the n equally spaced draws; restricted to a subset (Z channel, bipolar erasure) the count is a sub-grid count
                 v("rate", f"{nc} of {ne} eligible symbols changed, p*eligible = {p * ne:.1f} (draws are the {n}-point quantile grid)")
